@@ -182,6 +182,7 @@ theorem execInstr_renA (lines : List Text.Str) {rec rec' : Rec} (i : Instr)
   | compName f b => rfl
   | attrAssign q => rfl
   | globalDecl ns => rfl
+  | nonlocalDecl ns => rfl
   | addReturn => rfl
   | addImport x => rfl
   | addStar a b c => rfl
